@@ -12,7 +12,8 @@ from spec.ops import And, Implies, Not, Or
 ML = "dsl_compiler/src/lowering/memory_lowerer.py::MemoryLowerer."
 _OPQ = ty.TOpaque("x")
 _VREF = ty.TUnion((ty.TObj("SignalRef", only=("SignalRef",)), ty.Int))
-_NODE = ty.TOpt(ty.TObj("IRNode", only=("IRDecider", "IRConst", "IRArith", "IRWireMerge")))
+_NODE = ty.TOpt(ty.TObj("IRNode", only=("IRDecider", "IRConst", "IRArith", "IRWireMerge"),
+                       ftypes=(("debug_metadata", ty.TRecord((("user_declared", ty.Bool),))),)))
 CAPTURE = {}
 
 
@@ -79,7 +80,8 @@ def _post(a, res):
     if "@const_value" in w._fields:
         const_one = w._fields["@const_value"] == 1
     elif node is not None and isa(node, "IRConst"):
-        const_one = node.value == 1
+        # only an ANONYMOUS constant 1 means "always": a declared constant is an input that can change
+        const_one = And(node.value == 1, Not(node.debug_metadata["user_declared"]))
     return Or(const_one, w.signal_type == "signal-W")
 
 
@@ -106,7 +108,7 @@ standard_write = Contract(
     qualname=ML + "_lower_standard_write",
     params={"self": ty.TObj("MemoryLowerer", only=("MemoryLowerer",)), "expr": ty.TObj("WriteExpr", only=("WriteExpr",))},
     requires=[("(reset capture)", _requires_capture)],
-    ensures=[("the enable handed to the IR is on signal-W (retyped decider, +0 projection, or the constant 1)", _post)],
+    ensures=[("the enable handed to the IR is on signal-W (retyped decider, +0 projection) or is an anonymous constant 1", _post)],
     raises={"KeyError": None},
     uses={"ExpressionLowerer.lower_expr": lower_expr, "IRBuilder.get_operation": get_operation, "IRBuilder.arithmetic": arithmetic,
           "IRBuilder.const": const, "IRBuilder.memory_write": memory_write, "MemoryLowerer._memory_signal_type": mem_sig_type,
